@@ -60,13 +60,126 @@ def _second(var):
     return m.group(2) if m else None
 
 
+ELEMENT_CLASS = {'_uids': 'PGPUID', '_children': 'PGPKey', '_signatures': 'PGPSignature', 'subkeys': 'PGPKey'}
+
+
+def _split_each(text):
+    """'EACH(v in coll;body)' -> (v, coll, body) (top-level ';'), else None."""
+    if not (text.startswith('EACH(') and text.endswith(')')):
+        return None
+    inner, depth = text[5:-1], 0
+    cut = None
+    for i, ch in enumerate(inner):
+        if ch in '([{':
+            depth += 1
+        elif ch in ')]}':
+            depth -= 1
+        elif ch == ';' and depth == 0:
+            cut = i
+            break
+    if cut is None or ' in ' not in inner[:cut]:
+        return None
+    v, coll = inner[:cut].split(' in ', 1)
+    return v, coll, inner[cut + 1:]
+
+
+class _Gen(object):
+    """Expands `for c in X._gen(..): out += c.__bytearray__()` into the byte items of the sequence the generator yields: the
+    generator (and the generators it re-yields) is interpreted; every yielded object contributes its serialisation."""
+    def __init__(self, prog, bound):
+        self.prog, self.bound, self.n = prog, bound, 700
+
+    def fresh(self, text, old):
+        self.n += 1
+        new = '$%d' % self.n
+        return re.sub(re.escape(old) + r'(?![\d_])(?!\.\d)', new, text), new
+
+    def call(self, text, cls_hint=None):
+        """items of `R.name(args)` when that is a generator of the program, else None."""
+        m = re.match(r'^(.+)\.(\w+)\((.*)\)$', text)
+        if m is None:
+            return None
+        recv, name, argt = m.groups()
+        owners = [c for c in self.prog.all_classes() if name in c.methods and any(isinstance(n, (ast.Yield, ast.YieldFrom)) for n in ast.walk(c.methods[name].node))]
+        if cls_hint is not None:
+            owners = [c for c in owners if c.name == cls_hint] or owners
+        if len(owners) != 1:
+            return None
+        fi = owners[0].methods[name]
+        args = {}
+        for a in _split_args(argt):
+            if re.match(r'^\w+=', a):
+                k, v = a.split('=', 1)
+                try:
+                    args[k] = Const(ast.literal_eval(v))
+                except (ValueError, SyntaxError):
+                    args[k] = Sym(v)
+            else:
+                return None
+        outs = Interp(self.prog, Scenario(inline=noinline)).run(fi, self_val=Sym(recv, cls=owners[0], nonnull=True), args=args)
+        outs = [o for o in outs if o.raised is None]
+        if len(outs) != 1:
+            return None
+        items = []
+        for y in outs[0].yields:
+            got = self.value(render(y))
+            if got is None:
+                return None
+            items.extend(got)
+        return items
+
+    def value(self, y):
+        """items contributed by one yielded value (text)."""
+        star = y.startswith('*')
+        t = y[1:] if star else y
+        e = _split_each(t)
+        if e is not None:
+            v, coll, body = e
+            t2, nv = self.fresh('%s\x00%s' % (coll, body), v)
+            coll, body = t2.split('\x00')
+            self.bound[nv] = split_filter(coll)[0]
+            if body == nv:
+                if not star and False:
+                    return None
+                return [('EACH', nv, coll, [('SYM', '%s.__bytearray__()' % nv)])]
+            inner = self.value(body)
+            return None if inner is None else [('EACH', nv, coll, inner)]
+        if star:
+            mcoll = re.match(r'^(\$[\d.]+)\.', t)
+            hint = None
+            if mcoll and mcoll.group(1) in self.bound:
+                hint = ELEMENT_CLASS.get(self.bound[mcoll.group(1)].split('.')[-1].replace('values()', '').rstrip('.').split('.')[-1])
+                if hint is None:
+                    hint = ELEMENT_CLASS.get(re.sub(r'\.(values|items)\(\)$', '', self.bound[mcoll.group(1)]).split('.')[-1])
+            got = self.call(t, hint)
+            if got is not None:
+                return got
+            self.n += 1
+            nv = '$%d' % self.n
+            self.bound[nv] = t
+            return [('EACH', nv, t, [('SYM', '%s.__bytearray__()' % nv)])]
+        return [('SYM', '%s.__bytearray__()' % t)]
+
+
+def expand_generated(prog, f, s, its):
+    """If the export is one loop serialising what a generator of the program yields, return the items of that sequence (bound
+    variables of the expansion are added to s.bound); otherwise the items unchanged."""
+    its = merge_consts(its)
+    if len(its) == 1 and its[0][0] == 'EACH' and len(its[0][3]) == 1 and its[0][3][0] == ('SYM', '%s.__bytearray__()' % its[0][1]) and \
+            ' if ' not in its[0][2]:
+        got = _Gen(prog, s.bound).call(its[0][2], f.cls.name if f.cls is not None else None)
+        if got is not None:
+            return got
+    return its
+
+
 def export(rep, prog):
     f = prog.method('pgpy.pgp', 'PGPKey', '__bytearray__')
     rep.saw(fn=f)
     want = ['KEY', 'KEYSIGS', 'UIDS', 'SUBKEYS']
     me = f.params[0]
     for s in Interp(prog, Scenario(inline=noinline)).run(f):
-        its = merge_consts(s.ret.items) if isinstance(s.ret, Bytes) else None
+        its = expand_generated(prog, f, s, s.ret.items) if isinstance(s.ret, Bytes) else None
         if its is None:
             raise AnalysisError('PGPKey.__bytearray__ does not return bytes')
         kinds = []
